@@ -492,7 +492,7 @@ def route(R, RID='C05.route'):
              'validating reader; path conditions: %s' % (bad[:1],), func=f, node=y.stmt)
     for (site, call, extra, y) in raw_reads:
         pcs = [set(l) | extra for l in path_conditions(R, g, rd, start, site)]
-        bad = [sorted(l) for l in pcs if not not_text_path(l)]
+        bad = [sorted(l) for l in pcs if not not_text_path(l) and ('self._compression', True) not in l]
         R.ob(RID, 'raw read never for text', not bad,
              'a TEXT frame or a continuation of a text message can be read without incremental validation; '
              'path conditions: %s' % (bad[:1],), func=f, node=y.stmt)
@@ -501,6 +501,27 @@ def route(R, RID='C05.route'):
 
     # read_text body
     q2 = 'frame_parser.FrameParser.read_text'
+    via_helper = any(t.kind == 'func' and t.qual == q2 for (site, call, extra, y) in text_reads
+                     for t in R.types.call_targets(call, ctx))
+    if not via_helper:
+        # the validating reader is constructed in parse() itself: same obligations on those constructor calls
+        cf = R.func('parser._ReadUtf8.__init__')
+        n_val = 0
+        for (site, call, extra, y) in text_reads:
+            for t in R.types.call_targets(call, ctx):
+                if t.kind == 'ctor' and t.cls == 'parser._ReadUtf8':
+                    n_val += 1
+                    a = None
+                    for kw in call.keywords:
+                        if kw.arg == 'utf8_validator':
+                            a = kw.value
+                    if a is None and len(call.args) >= 2:
+                        a = call.args[1]
+                    R.ob(RID, 'per-parser validator', a is not None and U(a) == 'self._utf8_validator',
+                         'read_utf8 is given %s instead of the parser\'s persistent validator' % U(a), func=f, node=call)
+        R.ob(RID, 'read_text has a validating arm', n_val >= 1, 'text is never read through a validating reader',
+             func=f, node=f.node, construct='read_text validating arm')
+        return
     g2 = R.cfg(q2, recv)
     rd2 = ReachingDefs(g2)
     f2 = R.func(q2)
